@@ -261,6 +261,7 @@ class Pervaporation:
                 )
                 for composition in compositions
             ],
+            calculation_type=calculation_type,
             comments=(
                 str(self.membrane.name)
                 + " "
